@@ -358,6 +358,8 @@ impl<'a> Gen<'a> {
             12 => {
                 // power with a compile-time evaluated exponent whose static value is the rational `r`
                 let (x, r) = *rng.pick(&[("(1/2)", "1/2"), ("0.5", "1/2"), ("(2*3)", "6"), ("(3/2)", "3/2"), ("1.5", "3/2"), ("(1/4+1/4)", "1/2"), ("(2/3)", "2/3"), ("(2^2)", "4"), ("(0.5+0.5)", "1"), ("(0.25*2)", "1/2"), ("(3-1)", "2"),
+                    // a power with a negative integer exponent inside the exponent (rejected by the const evaluator today: numerical overflow; seed C01-E)
+                    ("(2^-1)", "1/2"), ("(2^(1-2))", "1/2"), ("(4^-1 * 2)", "1/2"),
                     // exponents whose exact value needs a large denominator (single literals: the run-time exponent is exact)
                     ("0.1234", "617/5000"), ("(1/1024)", "1/1024"), ("(5/2048)", "5/2048"), ("0.0009765625", "1/1024"), ("1.0625", "17/16"), ("(1001/1000)", "1001/1000"), ("2.718", "1359/500")]);
                 let d = (*rng.pick(&self.dims)).clone();
@@ -365,9 +367,14 @@ impl<'a> Gen<'a> {
                 let v = self.fresh("v");
                 let v2 = self.fresh("v");
                 self.stmts.push(format!("let {} = ({} {})^{}", v, 1 + rng.below(9), u, x));
-                self.stmts.push(format!("let {} = {} + 3 {}^({})", v2, v, u, r));
+                // (for the negative-power shapes the first definition stands alone half of the time: the raw value is then
+                // judged against the reported type even when the checker's exponent is not the one expected here)
+                let alone = x.contains("^-") || x.contains("^(1-2)");
+                if !(alone && rng.below(2) == 0) {
+                    self.stmts.push(format!("let {} = {} + 3 {}^({})", v2, v, u, r));
+                    self.checked.push(v2);
+                }
                 self.checked.push(v);
-                self.checked.push(v2);
                 self.tags.push("const-exponent".into());
             }
             15 => {
